@@ -580,7 +580,11 @@ def transientEnd (s : String) : Bool :=
   s == "state-changed" || s == "disconnected" || s == "too-slow" || s == "backfill-failed"
 
 /-- `st-case NAME meta= memb= file= lo= hi= mode= reset= docs= high= flog= loaderr= seq= f7= flogerr= openerr= delay= push=`
-    `[end=VBS:STATUS:s|r reref=VBS]`; `seq=ok|err|partial:VBS` -/
+    `[end=VBS:STATUS:s|r reref=VBS | members=K]`; `seq=ok|err|partial:VBS`.
+    `members=K` (group file-partial): the node has K·(hi+1) vBuckets, static membership 1/K, so 0..hi is the assignment
+    and `high=` lists every vBucket of the node; the model needs nothing of it beyond `high`.
+    meta=file with `docs` non-empty = the metadata file exists: `Startup.startAny` takes the file path
+    (`Startup.startFile`); every other line is decided by `Startup.start` exactly as before. -/
 def hStCase (args : List String) (real : Option String) : Option Out := do
   let _name :: rest := args | none
   let get := kvArg rest
@@ -625,11 +629,14 @@ def hStCase (args : List String) (real : Option String) : Option Out := do
   let c : Startup.Case := { metaType := metaT, memberType := memb, st, seq,
                             loadErr := assigned.any loadErr.contains, flogErr, openErr, ended, reopenErr }
   -- config.GetFileMetadata: type "file" without a file name panics in NewFSMetadata (dcp.go Start, first switch)
-  let exit := if metaT == "file" && file != "set" then Startup.Exit.fail "file-name-missing" else Startup.start c
+  let exit := if metaT == "file" && file != "set" then Startup.Exit.fail "file-name-missing" else Startup.startAny c
+  -- the file back end found its file: `Load` hands back the file's map, not one document per assigned vBucket
+  let fileEx := file == "set" && Startup.fileExists c
+  let fileMissing := if fileEx then Startup.fileMissing st else []
   -- traffic: one mutation per opened stream whose high seqno is not 2^64-1 (harness rule)
   let pushed := fun (offs : List (Vb × Offset)) =>
     (offs.filter fun p => push && Startup.trueHigh c p.1 != maxU64).length
-  let lateSome := Startup.deliversBeforeStop c delay push
+  let lateSome := Startup.deliversBeforeStopAny c delay push
   let model := match exit with
     | .running offs =>
       if endCase then
@@ -644,21 +651,27 @@ def hStCase (args : List String) (real : Option String) : Option Out := do
   let model := match exit with | .running _ => "running " ++ model | _ => model
   -- a prompt error answer racing with traffic: both `none` and `some` are possible
   let model := match exit, real with
-    | .fail "open-error", some r => if !delay && push && r == "exit-fail:open-error events=some" then r else model
+    | .fail "open-error", some r =>
+      if !delay && push && fileMissing.isEmpty && r == "exit-fail:open-error events=some" then r else model
     | _, _ => model
   -- the property on the REAL observation: `reasons` = why this start-up must be refused, judged on the
   -- TRUE server state (`load st` with the real high seqnos, whatever the client made of the answer)
   -- a PARTIAL answer is judged on what the server reported: a left-out vBucket counts as high seqno 0 (that is the
   -- reading of the unchanged client, `Props/C15.partial_seqnos_missing_is_zero`), so a stored seqno > 0 there is "ahead"
-  let ahead := (load st).isNone || (partialAns && (load (Startup.seenState c)).isNone)
+  -- behind an existing file EVERY stored vBucket is range-checked, assigned or not (`Startup.loadFile`)
+  let ahead := if fileEx then (Startup.loadFile st).isNone || (partialAns && (Startup.loadFile (Startup.seenState c)).isNone)
+               else (load st).isNone || (partialAns && (load (Startup.seenState c)).isNone)
   let reopenRefused := assigned.any fun vb => ended.contains vb && reopenErr.contains vb
   let reasons : List String :=
     (if !Startup.knownMetadata metaT || (metaT == "file" && file != "set") then ["metadata-type"] else []) ++
     (if !Startup.knownMembership memb then ["membership-type"] else []) ++
     (if c.loadErr then ["load-error"] else []) ++
     (if seqS == "err" then ["seqno-error"] else []) ++
-    (if Startup.latestBranch st && assigned.any flogErr.contains then ["failover-error"] else []) ++
+    (if !fileEx && Startup.latestBranch st && assigned.any flogErr.contains then ["failover-error"] else []) ++
     (if ahead then ["checkpoint-ahead"] else []) ++
+    -- an assigned vBucket the existing file does not name: no basis for it, the session must not run
+    -- (`Props/C15File.file_partial_basis_failstop`)
+    (if !fileMissing.isEmpty then ["partial-basis"] else []) ++
     (if assigned.any openErr.contains then ["open-error"] else []) ++
     (if reopenRefused then ["reopen-refused"] else [])
   let v := match real with
@@ -695,7 +708,8 @@ def hStCase (args : List String) (real : Option String) : Option Out := do
                 let st := p.2.getD 2 0; let ss := p.2.getD 4 0; let se := p.2.getD 5 0
                 !(ss ≤ st && st ≤ se)
             | none => false
-          s!"FAIL C15.ran-despite-{why}" ++ (if invalid then " C06.valid-offset" else "")
+          (if why == "partial-basis" then "FAIL C15.partial-basis-running" else s!"FAIL C15.ran-despite-{why}") ++
+            (if invalid then " C06.valid-offset" else "")
       else if (t.head?.getD "").startsWith "exit-fail:" then
         if t.contains "events=some" then
           -- only sibling traffic can reach the consumer before the process stops (finding F13)
